@@ -44,8 +44,9 @@ TRUSTED_BASE = [
     "NumPy/ducc0 arithmetic (IEEE rounding, reduction order) executed, not modelled; np.isnan guards not modelled"]
 ASSUMPTIONS = [
     "oracle allows 1e-8*(|b|+|A||x|) for drift between recurrence residual and true residual (rounding, outside the model)",
-    "DeltaEnergyController raises ZeroDivisionError when two consecutive energies are both 0 (e.g. start at x=0 with "
-    "any b): behaviour of the code as it is, modelled as an error kind, not counted as a C14 violation"]
+    "DeltaEnergyController is modelled as repaired by fixes/C14_deltae_zero_energy.diff (two vanishing energies give "
+    "rel = nan instead of ZeroDivisionError); on a tree without that fix the check reports the ZeroDivisionError as a "
+    "violation (finding C14-deltae-zero-energy)"]
 
 MARGIN = 1e-4      # relative margin inside which a float branch decision is not compared
 TOL = 1e-6         # class-T relative tolerance on trajectory quantities (observed noise <= 1e-9, see design.d/C14.md)
@@ -250,8 +251,10 @@ def _ie_matrix(case, mode):
 def oracle_ie(case):
     out = impl.run_ie(case)
     if "error" in out:
-        return None if out["error"] in ("NotImplementedError", "ZeroDivisionError") else \
-            (f"InversionEnabler raised {out['error']}", {"site": "ie", "kind": "raised:" + out["error"]})
+        # NotImplementedError is the documented answer for modes neither the operator nor its inverse offers
+        return None if out["error"] == "NotImplementedError" else \
+            (f"InversionEnabler.apply raised {out['error']} (controller {case['ctrl']['type']})",
+             {"site": "ie", "kind": "raised:" + out["error"], "ctrl": case["ctrl"]["type"]})
     mode, cap = case["mode"], case["opm"]["cap"]
     x = impl.cvec(case, "x")
     y = out["y"]
@@ -451,9 +454,9 @@ def _one_cg(ctx, c, mod):
 def oracle_cg_from(case, out):
     """oracle on an already computed real run (same statement as oracle_cg)"""
     if "error" in out:
-        if out["error"] == "ZeroDivisionError" and case["ctrl"]["type"] == "deltae":
-            return None
-        return (f"ConjugateGradient raised {out['error']}", {"site": "cg", "kind": "raised:" + out["error"]})
+        return (f"ConjugateGradient raised {out['error']} on a {'Hermitian positive definite' if case.get('hpd', True) else 'non-PD'}"
+                f" system with controller {case['ctrl']['type']}",
+                {"site": "cg", "kind": "raised:" + out["error"], "ctrl": case["ctrl"]["type"]})
     A, b = out["A"], out["b"]
     en = [(r["pos"], r["grad"], r["value"]) for r in out["recs"]] + [(out["pos"], out["grad"], out["value"])]
     r = _oracle_energies(A, b, en, "cg")
